@@ -210,7 +210,12 @@ Definition ob_register (st : ob_state) (r s : Z) (t : ob_tok) (o : ob_opts)
       if rs_err res then
         (* error-class answer: Observe removed, coap_delete_observer(resource, session, token) *)
         let rs3 := ob_upd_res r (fun x => fst (ob_del_in_res s t x)) rs2 in
-        (mk_st rs3 (st_pending st) (st_fl st) (st_nk st) (ob_ref_add rf1 s (-1)),
+        let gone := match ob_get_res r rs2 with
+                    | Some x => snd (ob_del_in_res s t x)
+                    | None => false
+                    end in
+        (mk_st rs3 (st_pending st) (st_fl st) (st_nk st)
+               (ob_ref_add rf1 s (if gone then -1 else 0)),
          [ORegResp r s t None])
       else
         (mk_st rs2 (st_pending st) (st_fl st) (st_nk st) rf1,
